@@ -5,8 +5,14 @@ ASSIGN_OPS = ('=', '+=', '-=', '*=', '/=', '%=', '<<=', '>>=', '&=', '|=', '^=')
 
 
 def strip_casts(n):
-    while n is not None and (n['k'].endswith('CastExpr') or n['k'] in ('ParenExpr',)) and n['ch']:
-        n = n['ch'][0]
+    """the expression without casts and parentheses; a use of a local reference that is just another name for a member (`T & x = _member;`, marked alias_i by the loader) is that member"""
+    while n is not None:
+        if (n['k'].endswith('CastExpr') or n['k'] in ('ParenExpr',)) and n['ch']:
+            n = n['ch'][0]
+        elif n['k'] == 'DeclRefExpr' and 'alias_i' in n and getattr(n, 'func', None) is not None and n['alias_i'] in n.func.nodes:
+            n = n.func.nodes[n['alias_i']]
+        else:
+            break
     return n
 
 
